@@ -458,3 +458,46 @@ theorem writeFiles_perm_fw (full : Ident → Bool) (fs : FS) (ts₁ ts₂ : List
     exact ⟨by rw [a1, a2], fun i => by rw [b1, b2]⟩
 
 end Prophy.FilesW
+
+/-! ### a second run (P32) -/
+namespace Prophy.FilesW
+
+/-- a second run on the same targets in the same order: the same end, every file as the first run left it -/
+theorem writeFiles_idem_fw (full : Ident → Bool) (fs : FS) (ts : List Target) :
+    (writeFiles full (writeFiles full fs ts).fs ts).ok = (writeFiles full fs ts).ok ∧
+    ∀ i, (writeFiles full (writeFiles full fs ts).fs ts).fs i = (writeFiles full fs ts).fs i := by
+  by_cases ho : OpenOK ts
+  · by_cases hw : WriteOK full ts
+    · obtain ⟨a1, b1, _⟩ := writeFiles_success_fw full fs ts ho hw
+      obtain ⟨a2, b2, c2⟩ := writeFiles_success_fw full (writeFiles full fs ts).fs ts ho hw
+      refine ⟨by rw [a1, a2], ?_⟩
+      intro i
+      by_cases hi : i ∈ idents ts
+      · obtain ⟨t, ht, hti⟩ := mem_idents_fw.1 hi
+        rw [b2 t ht i hti, b1 t ht i hti]
+      · exact c2 i hi
+    · obtain ⟨a1, b1⟩ := writeFiles_write_fail_fw full fs ts ho hw
+      obtain ⟨a2, b2⟩ := writeFiles_write_fail_fw full (writeFiles full fs ts).fs ts ho hw
+      refine ⟨by rw [a1, a2], ?_⟩
+      intro i
+      rw [b2 i]
+      by_cases hi : i ∈ idents ts
+      · rw [if_pos hi, b1 i, if_pos hi]
+        by_cases h0 : fs i = none
+        · simp [h0]
+        · simp [h0]
+      · rw [if_neg hi]
+  · obtain ⟨a1, _⟩ := writeFiles_open_fail_fw full fs ts ((openAll_none_iff_fw fs ts).2 ho)
+    obtain ⟨a2, b2⟩ := writeFiles_open_fail_fw full (writeFiles full fs ts).fs ts
+      ((openAll_none_iff_fw _ ts).2 ho)
+    exact ⟨by rw [a1, a2], b2⟩
+
+/-- a second run on the same targets in any order -/
+theorem writeFiles_repeat_fw (full : Ident → Bool) (fs : FS) (ts₁ ts₂ : List Target) (h : ts₁.Perm ts₂) :
+    (writeFiles full (writeFiles full fs ts₁).fs ts₂).ok = (writeFiles full fs ts₁).ok ∧
+    ∀ i, (writeFiles full (writeFiles full fs ts₁).fs ts₂).fs i = (writeFiles full fs ts₁).fs i := by
+  obtain ⟨p1, p2⟩ := writeFiles_perm_fw full (writeFiles full fs ts₁).fs ts₁ ts₂ h
+  obtain ⟨q1, q2⟩ := writeFiles_idem_fw full fs ts₁
+  exact ⟨by rw [← p1, q1], fun i => by rw [← p2 i, q2 i]⟩
+
+end Prophy.FilesW
